@@ -1,9 +1,11 @@
 package harness
 
 import (
+	"crypto/rand"
 	"fmt"
 	"strings"
 	"testing"
+	"testing/iotest"
 )
 
 // C05: message encryption interoperates with the RFC definitions (Lean Spec.encrypt/decrypt with
@@ -51,14 +53,17 @@ func TestC05(t *testing.T) {
 	if Thorough() {
 		top = 4200
 	}
-	for _, et := range []int32{17, 18, 16} {
+	for _, et := range []int32{17, 18, 16, 20, 19} {
 		for u := uint32(1); u <= top; u++ { // zero is not a key usage (RFC 3961 section 4); the library refuses it
 			if et == 16 && !Thorough() && u > 64 {
 				break
 			}
+			if (et == 19 || et == 20) && !Thorough() && u > 260 {
+				break // (the RFC 8009 labels are the usage number and one octet: 170 = 0xAA and 153 = 0x99 are inside)
+			}
 			c05Case(m, v, rng, et, 5+int(u%28), u)
 		}
-		for _, u := range []uint32{4087, 4088, 4095, 4096, 65535, 65536, 65791, 1<<24 - 1, 1 << 24, 1<<32 - 1} {
+		for _, u := range []uint32{4087, 4088, 4095, 4096, 0xAA00, 0x9900, 0x55AA, 0xAA0000, 0x12AA3456, 0xAA000001, 0x99000001, 65535, 65536, 65791, 1<<24 - 1, 1 << 24, 1<<32 - 1} {
 			c05Case(m, v, rng, et, 9, u)
 		}
 		for i := 0; i < 40; i++ {
@@ -87,6 +92,7 @@ func TestC05(t *testing.T) {
 		}
 	}
 	c05FreshMixed(v, rng)
+	c05FreshShortReads(v, rng)
 	v.ModelAsks = m.N
 	v.Write(t)
 }
@@ -147,6 +153,33 @@ func c05CasePT(m *Model, v *Verdict, rng *RNG, et int32, pt []byte, usage uint32
 // c05FreshMixed: the confounder of every message is fresh whatever was encrypted before it: runs of
 // encryptions of one plaintext under one key, started after 0..3 encryptions under etypes with another
 // confounder size, and interleaved with them, never repeat a ciphertext.
+// c05FreshShortReads: the process's random source may return fewer octets than asked for in one Read (an
+// io.Reader is allowed to): the confounder is still wholly random, never partly zero.
+func c05FreshShortReads(v *Verdict, rng *RNG) {
+	saved := rand.Reader
+	rand.Reader = iotest.OneByteReader(saved)
+	defer func() { rand.Reader = saved }()
+	for _, et := range allEtypes {
+		key := randKey(rng, et)
+		pt := rng.Bytes(20)
+		seen := map[string]bool{}
+		n := 400
+		for i := 0; i < n; i++ {
+			ct, err, pan := goEncrypt(et, key, pt, 3)
+			if err != nil || pan != "" {
+				v.Violate("failing-input", fmt.Sprintf("c05:short-reads:encrypt-fails:et=%d", et), "EncryptMessage fails when the random source delivers one octet per Read", map[string]string{"et": itoa(et), "error": fmt.Sprint(err, pan)})
+				break
+			}
+			if seen[string(ct)] {
+				v.Violate("failing-input", fmt.Sprintf("c05:confounder-repeats-short-reads:et=%d", et), "with a random source that delivers one octet per Read, two encryptions of the same plaintext produced the same ciphertext (the confounder is only partly random)", map[string]string{"et": itoa(et), "key": X(key), "pt": X(pt), "ct": X(ct), "after": fmt.Sprint(i)})
+				break
+			}
+			seen[string(ct)] = true
+		}
+		v.Case(fmt.Sprintf("fresh-short-reads/%d", et), fmt.Sprintf("fresh with one-octet reads et=%d (%d msgs)", et, n))
+	}
+}
+
 func c05FreshMixed(v *Verdict, rng *RNG) {
 	runs := 700
 	if Thorough() {
